@@ -12,8 +12,8 @@ import traceback
 import scratch
 from scratch import Undecided, VERIF
 
-KANI_PROPS = ["C01", "C02", "C03", "C04", "C05", "C06", "C07", "C09", "C19"]
-VERUS_PROPS = ["C04", "C08", "C09", "C12", "C14", "C16", "C17", "C18"]
+KANI_PROPS = ["C01", "C02", "C03", "C04", "C05", "C06", "C07", "C09", "C16", "C19"]
+VERUS_PROPS = ["C04", "C05", "C07", "C08", "C09", "C12", "C14", "C16", "C17", "C18"]
 CLAIMED = ["C01", "C02", "C03", "C04", "C05", "C06", "C07", "C08", "C09", "C12", "C14", "C16", "C17", "C18", "C19"]
 
 TRUSTED_BASE = [
@@ -67,7 +67,8 @@ class Report:
 def write_evidence(rep: Report, checker_cmd: str):
     evdir = os.environ.get("VERIF_EVIDENCE_DIR", os.path.join(VERIF, "evidence"))
     os.makedirs(evdir, exist_ok=True)
-    obl = rep.obligations
+    obl = [o for o in rep.obligations if o["status"] != "bounded-ok"]
+    nb = len(rep.obligations) - len(obl)
     n = len(obl)
     dis = sum(1 for o in obl if o["status"] == "discharged")
     by_engine = {}
@@ -110,6 +111,7 @@ def write_evidence(rep: Report, checker_cmd: str):
             "undecided": rep.undecided,
             "known_findings": rep.known,
             "bounded": rep.bounded,
+            "bounded_checks_passed_not_counted_as_proved": nb,
             "notes": rep.notes,
             "obligation_list": [[o["id"], o["engine"] + "/" + o["backend"], o["status"], o["solver_s"]] for o in obl],
         },
@@ -176,7 +178,9 @@ def run_property(pid: str, tier: str, seed: int) -> int:
         print(f"VIOLATION property={pid} replay={v['path']} obligation={v['obligation']}{tail}")
     n = len(rep.obligations)
     dis = sum(1 for o in rep.obligations if o["status"] == "discharged")
-    print(f"[{pid}/{tier}] obligations={n} discharged={dis} refuted={len(rep.violations)} known={len(rep.known)} "
+    nb = sum(1 for o in rep.obligations if o["status"] == "bounded-ok")
+    n -= nb
+    print(f"[{pid}/{tier}] obligations={n} discharged={dis} bounded(not counted)={nb} refuted={len(rep.violations)} known={len(rep.known)} "
           f"undecided={len(rep.undecided)} wall={time.time() - rep.t0:.0f}s")
     if rep.violations:
         return 1
@@ -261,12 +265,15 @@ def evaluate_kani(kb, sel, res, rep, pid, log, root):
             continue
         if not r.cover_ok:
             rep.undecided.append(f"{n}: reachability cover not satisfied (vacuous harness)")
+        if u.bounded and not any(b.get("unit") == n for b in rep.bounded):
+            rep.bounded.append({"unit": n, "target": u.target, "bound": u.bounded})
         mine = [c for c in u.clauses if pid in kani_engine.clause_props(u, c)]
+        okst = "bounded-ok" if u.bounded else "discharged"
         for c in mine:
-            rep.add(n, c, "kani", backend, "refuted" if c in failed else "discharged", r.time_s, u.target, u.klass)
+            rep.add(n, c, "kani", backend, "refuted" if c in failed else okst, r.time_s, u.target, u.klass)
         tot_fail = [c for c in failed if c not in u.clauses]
         if pid in kani_engine.clause_props(u, "total"):
-            rep.add(n, "total", "kani", backend, "refuted" if tot_fail else "discharged", r.time_s, u.target, u.klass)
+            rep.add(n, "total", "kani", backend, "refuted" if tot_fail else okst, r.time_s, u.target, u.klass)
         else:
             tot_fail = []
         relevant = [c for c in set(failed) if c in mine] + sorted(set(tot_fail))
